@@ -18,6 +18,7 @@
       quantify over all answers.
 -/
 import MW.Model.ApiDsl
+import MW.Gen.ApiFn
 import MW.Gen.ApiErr
 namespace MW.Model.Api
 open Stmt MW.Gen
@@ -105,167 +106,6 @@ def failCvt (_e : Var) (fallback : Nat) : Stmt :=
 def failCvt' (_e : Var) : Stmt := .call "convertResponseError" ["cvt", "cvt.unknown"] [] ;; .set "out" (.v "cvt") ;; .ret
 
 
-/- indexes of the anchored functions in the table `progs` (checked by `fnIndex_ok`) -/
-namespace Fn
-def APIServer_RunGateway_api_server : Nat := 0
-def APIServer_Start_api_server : Nat := 1
-def APIServer_Stop_api_server : Nat := 2
-def NewAPIServer_api_server : Nat := 3
-def generateRPCKeyPair_api_server : Nat := 4
-def openRPCKeyPair_api_server : Nat := 5
-def AutoCreateTransaction : Nat := 6
-def CheckPoolPkCoinbase : Nat := 7
-def CheckTargetBinding : Nat := 8
-def CreateBindingTransaction_api : Nat := 9
-def CreatePoolPkCoinbaseTransaction : Nat := 10
-def CreateRawTransaction_api : Nat := 11
-def CreateStakingTransaction_api : Nat := 12
-def DecodeRawTransaction : Nat := 13
-def GetBindingHistory_api : Nat := 14
-def GetNetworkBinding : Nat := 15
-def GetRawTransaction : Nat := 16
-def GetStakingHistory_api : Nat := 17
-def GetTransactionFee : Nat := 18
-def GetTxStatus : Nat := 19
-def SendRawTransaction : Nat := 20
-def TxHistory : Nat := 21
-def buildDecodeRawTxResponse : Nat := 22
-def createTxRawResult : Nat := 23
-def createVinList : Nat := 24
-def getStatus : Nat := 25
-def createVoutList : Nat := 26
-def getEstimateStakingAddress : Nat := 27
-def messageToHex_api : Nat := 28
-def mockBindingTarget : Nat := 29
-def witnessToHex : Nat := 30
-def AmountToString : Nat := 31
-def StringToAmount : Nat := 32
-def checkAddressLen : Nat := 33
-def checkFormatAmount : Nat := 34
-def checkLocktime : Nat := 35
-def checkMnemonicLen : Nat := 36
-def checkNotEmpty : Nat := 37
-def checkParseAmount : Nat := 38
-def checkPassLen : Nat := 39
-def checkRemarksLen : Nat := 40
-def checkTransactionIdLen : Nat := 41
-def checkTxFeeLimit : Nat := 42
-def checkWalletIdLen : Nat := 43
-def checkWitnessAddress : Nat := 44
-def convertResponseError : Nat := 45
-def extractAddressInfos : Nat := 46
-def isEmpty : Nat := 47
-def parseBindingTarget : Nat := 48
-def CreateAddress : Nat := 49
-def CreateWallet_api : Nat := 50
-def ExportWallet_api : Nat := 51
-def GetAddressBalance : Nat := 52
-def GetAddresses_api : Nat := 53
-def GetClientStatus : Nat := 54
-def GetUtxo_api : Nat := 55
-def GetWalletBalance : Nat := 56
-def GetWalletMnemonic : Nat := 57
-def ImportMnemonic : Nat := 58
-def ImportWallet_api : Nat := 59
-def QuitClient : Nat := 60
-def RemoveWallet_api : Nat := 61
-def SignRawTransaction : Nat := 62
-def UseWallet_api : Nat := 63
-def ValidateAddress : Nat := 64
-def Wallets_api : Nat := 65
-def decodeHexStr : Nat := 66
-def AmountToString_wm : Nat := 67
-def PayToWitnessV0Address : Nat := 68
-def addTxIn : Nat := 69
-def autoConstructTxInAndChangeTxOut : Nat := 70
-def existsMsgTx : Nat := 71
-def existsOutPoint : Nat := 72
-def existsUnminedTx : Nat := 73
-def prepareFromAddresses : Nat := 74
-def amountToTxOut : Nat := 75
-def maybeSubtractFeeFromAmounts : Nat := 76
-def NewNtfnsHandler : Nat := 77
-def IsWorkerBusy : Nat := 78
-def OnBlockConnected : Nat := 79
-def OnImportWallet : Nat := 80
-def OnRemoveWallet : Nat := 81
-def OnTransactionReceived : Nat := 82
-def RemoveMempoolTx : Nat := 83
-def Start : Nat := 84
-def Stop : Nat := 85
-def asyncImport : Nat := 86
-def asyncRemove : Nat := 87
-def disconnectBlock : Nat := 88
-def filterBlock : Nat := 89
-def filterTx : Nat := 90
-def filterTxForImporting : Nat := 91
-def getBlock : Nat := 92
-def getReadyWallets : Nat := 93
-def initTaskChan : Nat := 94
-def onRelevantBlockConnected : Nat := 95
-def onRelevantTx : Nat := 96
-def proccessReceivedTx : Nat := 97
-def processConnectedBlock : Nat := 98
-def reorg : Nat := 99
-def resume : Nat := 100
-def suspend : Nat := 101
-def Recover : Nat := 102
-def handle : Nat := 103
-def worker : Nat := 104
-def EstimateBindingTxFee : Nat := 105
-def EstimateManualTxFee : Nat := 106
-def EstimateStakingTxFee : Nat := 107
-def EstimateTxFee : Nat := 108
-def GetTxHistory : Nat := 109
-def SignHash : Nat := 110
-def constructTxIn : Nat := 111
-def constructTxOut : Nat := 112
-def estimateSignedSize : Nat := 113
-def findEligibleUtxos : Nat := 114
-def getUtxos : Nat := 115
-def getUtxosExcludeBindingAndStaking : Nat := 116
-def signWitnessTx : Nat := 117
-def constructStakingTxOut : Nat := 118
-def messageToHex : Nat := 119
-def optOutputs : Nat := 120
-def selectRelatedTx : Nat := 121
-def NewWalletManager : Nat := 122
-def AddressBalance : Nat := 123
-def AutoCreateRawTransaction : Nat := 124
-def ChainIndexerSyncedHeight : Nat := 125
-def ChangePrivPassphrase : Nat := 126
-def CheckReady : Nat := 127
-def ClearUsedUTXOMark : Nat := 128
-def CloseDB : Nat := 129
-def CountAll : Nat := 130
-def CreateBindingTransaction : Nat := 131
-def CreateRawTransaction : Nat := 132
-def CreateStakingTransaction : Nat := 133
-def CreateWallet : Nat := 134
-def CurrentWallet : Nat := 135
-def ExportWallet : Nat := 136
-def GetAddresses : Nat := 137
-def GetAllAddressesWithPubkey : Nat := 138
-def GetBindingHistory : Nat := 139
-def GetMnemonic : Nat := 140
-def GetStakingHistory : Nat := 141
-def GetUtxo : Nat := 142
-def ImportWallet : Nat := 143
-def ImportWalletWithMnemonic : Nat := 144
-def IsAddressInCurrent : Nat := 145
-def MarkUsedUTXO : Nat := 146
-def NewAddress : Nat := 147
-def RemoveWallet : Nat := 148
-def SignRawTx : Nat := 149
-def Start_wm : Nat := 150
-def Stop_wm : Nat := 151
-def SyncedTo : Nat := 152
-def UTXOUsed : Nat := 153
-def UseWallet : Nat := 154
-def WalletBalance : Nat := 155
-def Wallets : Nat := 156
-def checkInit : Nat := 157
-end Fn
 
 -- ==================================================================== api/util.go
 
@@ -338,7 +178,7 @@ def f_checkParseAmount : Stmt :=
   .ite (nz "sta.err") (.set "cpa.err" (.k ApiErr.invalidAmount)) (.set "cpa.err" (.k 0))
 
 def f_checkFormatAmount : Stmt :=
-  .invoke Fn.AmountToString ;;
+  .invoke Fn.AmountToString_util ;;
   .ite (nz "ats.err") (.set "cfa.err" (.k ApiErr.invalidAmount)) (.set "cfa.err" (.k 0))
 
 def f_checkWitnessAddress : Stmt :=
@@ -467,6 +307,14 @@ def f_decodeHexStr : Stmt :=
   .call "hex.DecodeString" ["decoded", "dh.err"] [] ;;
   .ite (nz "dh.err") (Dt "err .Error" "dh.err") .skip
 
+/-- frees the coins reserved for a draft that is rejected (fee limit) instead of being returned -/
+def f_releaseDraft : Stmt :=
+  .invoke Fn.decodeHexStr ;;
+  ifR (nz "dh.err") .skip ;;
+  .call "tx.SetBytes" ["rd.err"] [] ;;
+  ifR (nz "rd.err") .skip ;;
+  .invoke Fn.ClearUsedUTXOMark
+
 def f_SignRawTransaction : Stmt :=
   flag "in.RawTx: len == 0" "srt.empty" ;;
   failIf (nz "srt.empty") ApiErr.invalidTxHex ;;
@@ -484,7 +332,7 @@ def f_CreateAddress : Stmt :=
   CV "uint16(in.Version)" ;;
   flag "massutil.IsValidAddressClass(uint16(in.Version))" "ca.valid" ;;
   failIf (isz "ca.valid") ApiErr.invalidVersion ;;
-  .invoke Fn.GetAddresses ;;
+  .invoke Fn.GetAddresses_wallet ;;
   failIf (nz "err") ApiErr.abnormalData ;;
   .loop "ca.i" "result" [] (
     .call "range ads" ["ad"] (always [.nz "ad"]) ;;
@@ -499,7 +347,7 @@ def f_GetAddresses_api : Stmt :=
   CV "uint16(in.Version)" ;;
   flag "massutil.IsValidAddressClass(uint16(in.Version))" "ca.valid" ;;
   failIf (isz "ca.valid") ApiErr.invalidVersion ;;
-  .invoke Fn.GetAddresses ;;
+  .invoke Fn.GetAddresses_wallet ;;
   ifR (nz "err") (failCvt "err" ApiErr.queryDataFailed) ;;
   .loop "ga.i" "result" [] (
     .call "range ads" ["ad"] (always [.nz "ad"]) ;;
@@ -555,14 +403,14 @@ def f_GetAddressBalance : Stmt :=
 def f_UseWallet_api : Stmt :=
   .invoke Fn.checkWalletIdLen ;;
   ifR (nz "cwl.err") (.set "out" (.v "cwl.err")) ;;
-  .invoke Fn.UseWallet ;;
+  .invoke Fn.UseWallet_wallet ;;
   ifR (nz "err") (failCvt "err" ApiErr.abnormalData) ;;
   D "info" "TotalBalance" ;;
   .invoke Fn.checkFormatAmount ;; ifR (nz "cfa.err") (.set "out" (.v "cfa.err")) ;;
   ok
 
 def f_Wallets_api : Stmt :=
-  .invoke Fn.Wallets ;;
+  .invoke Fn.Wallets_wallet ;;
   ifR (nz "err") (failCvt "err" ApiErr.queryDataFailed) ;;
   .loop "w.i" "ret" [] (
     .call "range summaries" ["summary", "summary.Status"] (always [.nz "summary", .nz "summary.Status"]) ;;
@@ -575,7 +423,7 @@ def f_GetUtxo_api : Stmt :=
   .loop "gu.i" "in.Addresses" [] (
     .invoke Fn.checkAddressLen ;;
     ifR (nz "cal.err") (.set "out" (.v "cal.err"))) ;;
-  .invoke Fn.GetUtxo ;;
+  .invoke Fn.GetUtxo_wallet ;;
   ifR (nz "err") (failCvt "err" ApiErr.queryDataFailed) ;;
   .call "len(m)" ["gu.m"] [] ;;
   .loop "gu.k" "gu.m" [] (
@@ -589,7 +437,7 @@ def f_GetUtxo_api : Stmt :=
 def f_ImportWallet_api : Stmt :=
   .invoke Fn.checkPassLen ;;
   ifR (nz "cpl.err") (.set "out" (.v "cpl.err")) ;;
-  .invoke Fn.ImportWallet ;;
+  .invoke Fn.ImportWallet_wallet ;;
   ifR (nz "err") (failCvt "err" ApiErr.abnormalData) ;;
   D "ws" "WalletID" ;;
   ok
@@ -610,7 +458,7 @@ def f_CreateWallet_api : Stmt :=
   ifR (nz "cpl.err") (.set "out" (.v "cpl.err")) ;;
   .invoke Fn.checkRemarksLen ;;
   CV "int(in.BitSize)" ;;
-  .invoke Fn.CreateWallet ;;
+  .invoke Fn.CreateWallet_wallet ;;
   ifR (nz "err") (failCvt "err" ApiErr.abnormalData) ;;
   ok
 
@@ -619,7 +467,7 @@ def f_ExportWallet_api : Stmt :=
   ifR (nz "cwl.err") (.set "out" (.v "cwl.err")) ;;
   .invoke Fn.checkPassLen ;;
   ifR (nz "cpl.err") (.set "out" (.v "cpl.err")) ;;
-  .invoke Fn.ExportWallet ;;
+  .invoke Fn.ExportWallet_wallet ;;
   ifR (nz "err") (failCvt "err" ApiErr.queryDataFailed) ;;
   ok
 
@@ -628,7 +476,7 @@ def f_RemoveWallet_api : Stmt :=
   ifR (nz "cwl.err") (.set "out" (.v "cwl.err")) ;;
   .invoke Fn.checkPassLen ;;
   ifR (nz "cpl.err") (.set "out" (.v "cpl.err")) ;;
-  .invoke Fn.RemoveWallet ;;
+  .invoke Fn.RemoveWallet_wallet ;;
   ifR (nz "err") (failCvt "err" ApiErr.abnormalData) ;;
   ok
 
@@ -656,7 +504,7 @@ def f_createVoutList : Stmt :=
     ifR (nz "cvo.err") .skip ;;
     .invoke Fn.extractAddressInfos ;;
     ifR (nz "eai.err") (.set "cvo.err" (.v "eai.err")) ;;
-    .invoke Fn.AmountToString ;;
+    .invoke Fn.AmountToString_util ;;
     ifR (nz "ats.err") (.set "cvo.err" (.v "ats.err"))) ;;
   .set "cvo.err" (.k 0)
 
@@ -690,7 +538,7 @@ def f_createVinList : Stmt :=
       D "prevVout" "PkScript" ;;
       .invoke Fn.extractAddressInfos ;;
       ifR (nz "eai.err") (.set "cvi.err" (.v "eai.err")) ;;
-      .invoke Fn.AmountToString ;;
+      .invoke Fn.AmountToString_util ;;
       ifR (nz "ats.err") (.set "cvi.err" (.v "ats.err")))) ;;
   .set "cvi.err" (.k 0)
 
@@ -711,7 +559,7 @@ def f_createTxRawResult : Stmt :=
   .invoke Fn.createVinList ;;
   ifR (nz "cvi.err") (.set "ctr.err" (.v "cvi.err")) ;;
   flag "isCoinbase" "ctr.cb" ;;
-  .ite (isz "ctr.cb") (.invoke Fn.AmountToString ;; ifR (nz "ats.err") (.set "ctr.err" (.v "ats.err"))) .skip ;;
+  .ite (isz "ctr.cb") (.invoke Fn.AmountToString_util ;; ifR (nz "ats.err") (.set "ctr.err" (.v "ats.err"))) .skip ;;
   .call "mtx.Bytes" ["ctr.err"] [] ;;
   ifR (nz "ctr.err") .skip ;;
   .invoke Fn.getStatus ;;
@@ -727,7 +575,7 @@ def f_buildDecodeRawTxResponse : Stmt :=
   .loop "bd.i" "mtx.TxIn" [] (.invoke Fn.witnessToHex) ;;
   .call "len(mtx.TxOut)" ["mtx.TxOut"] [] ;;
   .loop "bd.n" "mtx.TxOut" [] (
-    .invoke Fn.AmountToString ;;
+    .invoke Fn.AmountToString_util ;;
     ifR (nz "ats.err") (.set "bd.err" (.v "ats.err")) ;;
     .call "txscript.DisasmString" ["bd.err"] [] ;;
     ifR (nz "bd.err") .skip ;;
@@ -807,10 +655,10 @@ def f_CreateRawTransaction_api : Stmt :=
   .loop "cr.s" "in.Subtractfeefrom" [.nz "subtractfeefrom"] (
     flag "len(subfrom) == 0" "cr.se" ;;
     .ite (nz "cr.se") .skip (MA "subtractfeefrom[subfrom]" "subtractfeefrom")) ;;
-  .invoke Fn.CreateRawTransaction ;;
+  .invoke Fn.CreateRawTransaction_wallet ;;
   ifR (nz "err") (failCvt "err" ApiErr.abnormalData) ;;
   .invoke Fn.checkTxFeeLimit ;;
-  ifR (nz "ctf.err") (.set "out" (.v "ctf.err")) ;;
+  ifR (nz "ctf.err") (.invoke Fn.releaseDraft ;; .set "out" (.v "ctf.err")) ;;
   ok
 
 def f_CreateStakingTransaction_api : Stmt :=
@@ -827,10 +675,10 @@ def f_CreateStakingTransaction_api : Stmt :=
   .set "addr.sel" (.k 2) ;;
   .invoke Fn.checkWitnessAddress ;;
   ifR (nz "cwa.err") (.set "out" (.v "cwa.err")) ;;
-  .invoke Fn.CreateStakingTransaction ;;
+  .invoke Fn.CreateStakingTransaction_wallet ;;
   ifR (nz "err") (failCvt "err" ApiErr.abnormalData) ;;
   .invoke Fn.checkTxFeeLimit ;;
-  ifR (nz "ctf.err") (.set "out" (.v "ctf.err")) ;;
+  ifR (nz "ctf.err") (.invoke Fn.releaseDraft ;; .set "out" (.v "ctf.err")) ;;
   ok
 
 def f_CreateBindingTransaction_api : Stmt :=
@@ -860,10 +708,10 @@ def f_CreateBindingTransaction_api : Stmt :=
     ifR (nz "pbt.err") (.set "out" (.v "pbt.err")) ;;
     .invoke Fn.checkParseAmount ;;
     ifR (nz "cpa.err") (.set "out" (.v "cpa.err"))) ;;
-  .invoke Fn.CreateBindingTransaction ;;
+  .invoke Fn.CreateBindingTransaction_wallet ;;
   ifR (nz "err") (failCvt "err" ApiErr.abnormalData) ;;
   .invoke Fn.checkTxFeeLimit ;;
-  ifR (nz "ctf.err") (.set "out" (.v "ctf.err")) ;;
+  ifR (nz "ctf.err") (.invoke Fn.releaseDraft ;; .set "out" (.v "ctf.err")) ;;
   ok
 
 def f_CreatePoolPkCoinbaseTransaction : Stmt :=
@@ -888,7 +736,7 @@ def f_CreatePoolPkCoinbaseTransaction : Stmt :=
   .invoke Fn.checkParseAmount ;;
   .ite (nz "cpa.err") (.set "amt.sel" (.k 4) ;; .invoke Fn.checkParseAmount) .skip ;;
   flag "max.Cmp(fee) < 0" "fee.big" ;;
-  failIf (nz "fee.big") ApiErr.bigTransactionFee ;;
+  .ite (nz "fee.big") (.invoke Fn.releaseDraft ;; fail ApiErr.bigTransactionFee) .skip ;;
   ok
 
 def f_AutoCreateTransaction : Stmt :=
@@ -916,7 +764,7 @@ def f_AutoCreateTransaction : Stmt :=
   .invoke Fn.AutoCreateRawTransaction ;;
   ifR (nz "err") (failCvt "err" ApiErr.abnormalData) ;;
   .invoke Fn.checkTxFeeLimit ;;
-  ifR (nz "ctf.err") (.set "out" (.v "ctf.err")) ;;
+  ifR (nz "ctf.err") (.invoke Fn.releaseDraft ;; .set "out" (.v "ctf.err")) ;;
   ok
 
 def f_mockBindingTarget : Stmt :=
@@ -964,7 +812,7 @@ def f_GetTransactionFee : Stmt :=
       ifR (nz "ctl.err") (.set "out" (.v "ctl.err"))) ;;
     .invoke Fn.EstimateManualTxFee ;;
     ifR (nz "err") (failCvt "err" ApiErr.abnormalData)) ;;
-  .invoke Fn.AmountToString ;;
+  .invoke Fn.AmountToString_util ;;
   failIf (nz "ats.err") ApiErr.unknownErr ;;
   ok
 
@@ -993,13 +841,13 @@ def f_GetStakingHistory_api : Stmt :=
   nodeBC "s.node.Blockchain() .GetUnexpiredStakingRank" ;;
   .call "GetUnexpiredStakingRank" ["rewards", "gsh.err"] [] ;;
   failIf (nz "gsh.err") ApiErr.getStakingTxDetail ;;
-  .invoke Fn.GetStakingHistory ;;
+  .invoke Fn.GetStakingHistory_wallet ;;
   failIf (nz "err") ApiErr.getStakingTxDetail ;;
   .set "weights" (.k 1) ;;
   .loop "gsh.i" "ret" [.nz "weights"] (
     .call "range stakingTxs" ["lTx"] (always [.nz "lTx"]) ;;
     D "lTx" "Utxo" ;;
-    .invoke Fn.AmountToString ;;
+    .invoke Fn.AmountToString_util ;;
     failIf (nz "ats.err") ApiErr.getStakingTxDetail ;;
     flag "weights[tx.Utxo.Address] exists" "gsh.seen" ;;
     .ite (nz "gsh.seen") .skip (
@@ -1018,7 +866,7 @@ def f_GetStakingHistory_api : Stmt :=
   ok
 
 def f_GetBindingHistory_api : Stmt :=
-  .invoke Fn.GetBindingHistory ;;
+  .invoke Fn.GetBindingHistory_wallet ;;
   ifR (nz "err") (failCvt "err" ApiErr.queryDataFailed) ;;
   mark "node" ;;
   .loop "gbh.i" "ret" [] (
@@ -1389,7 +1237,7 @@ def f_GetAddresses : Stmt :=
   .set "err" (.k 0)
 
 def f_GetAllAddressesWithPubkey : Stmt :=
-  .invoke Fn.GetAddresses ;;
+  .invoke Fn.GetAddresses_wallet ;;
   ifR (nz "err") .skip ;;
   .set "m0" (.k 1) ;;
   .set "m1" (.k 1) ;;
@@ -1437,7 +1285,7 @@ def f_CreateRawTransaction : Stmt :=
   .invoke Fn.constructTxOut ;;
   ifR (nz "err") .skip ;;
   D "mtx" "LockTime" ;;
-  .invoke Fn.messageToHex ;;
+  .invoke Fn.messageToHex_tx ;;
   ifR (nz "err") .skip ;;
   .call "len(mtx.TxOut)" ["mtx.TxOut"] [] ;;
   .loop "crt.o" "mtx.TxOut" [] (
@@ -1454,7 +1302,7 @@ def autoTail (estimate : Nat) (tx : String) : Stmt :=
   .invoke estimate ;;
   ifR (nz "err") .skip ;;
   D tx "LockTime" ;;
-  .invoke Fn.messageToHex ;;
+  .invoke Fn.messageToHex_tx ;;
   ifR (nz "err") .skip ;;
   .invoke Fn.MarkUsedUTXO ;;
   .set "err" (.k 0)
@@ -1463,9 +1311,19 @@ def f_AutoCreateRawTransaction : Stmt := autoTail Fn.EstimateTxFee "mtx"
 def f_CreateStakingTransaction : Stmt := autoTail Fn.EstimateStakingTxFee "msgTx"
 def f_CreateBindingTransaction : Stmt := autoTail Fn.EstimateBindingTxFee "msgTx"
 
-def f_MarkUsedUTXO : Stmt := .skip
+/-- every input: `holders := [holder] ++ (others of the cached list, when the cached value is a list)` -/
+def f_MarkUsedUTXO : Stmt :=
+  .call "len(msgTx.TxIn)" ["mu.n"] [] ;;
+  .loop "mu.i" "mu.n" [] (
+    flag "w.usedCache.Get(key)" "mu.ok" ;;
+    .ite (nz "mu.ok") (AOK "v.([]wire.Hash)") .skip)
 def f_UTXOUsed : Stmt := .skip
-def f_ClearUsedUTXOMark : Stmt := .skip
+/-- every input: drop this draft from the cached holder list (comma-ok assertion; a foreign value is deleted) -/
+def f_ClearUsedUTXOMark : Stmt :=
+  .call "len(msgTx.TxIn)" ["cu.n"] [] ;;
+  .loop "cu.i" "cu.n" [] (
+    flag "w.usedCache.GetWithExpiration(key)" "cu.ok" ;;
+    .ite (nz "cu.ok") (AOK "v.([]wire.Hash)") .skip)
 
 def f_SignRawTx : Stmt :=
   curKeystore "ks" ;;
@@ -1500,11 +1358,11 @@ def serverBC (text : String) : Stmt := .call "w.server.Blockchain()" ["sbc"] (al
 
 def f_Start_wm : Stmt :=
   serverBC "w.server.Blockchain() .RegisterListener" ;;
-  .invoke Fn.Start
+  .invoke Fn.Start_ntfnshandler
 
 def f_Stop_wm : Stmt :=
   serverBC "w.server.Blockchain() .UnregisterListener" ;;
-  .invoke Fn.Stop
+  .invoke Fn.Stop_ntfnshandler
 
 def f_CloseDB : Stmt := .skip
 
@@ -1650,11 +1508,16 @@ def f_amountToTxOut : Stmt :=
 
 def f_constructTxIn : Stmt :=
   curKeystore "am" ;;
-  .loop "cti.i" "inputs" [.nz "am", .ge "inputs" 1] (
+  .set "spent" (.k 1) ;;
+  .loop "cti.i" "inputs" [.nz "am", .ge "inputs" 1, .nz "spent"] (
     .set "cur.in" (.v "cti.i") ;;
     .call "wire.NewHashFromStr(input.TxId)" ["txHash", "herr"] (onOk "herr" [.nz "txHash"]) ;;
     .ite (nz "herr") (Dt "err .Error" "herr" ;; .set "err" (.k E.shaHashFromStr) ;; .ret) .skip ;;
     .call "input.Vout" ["vout"] [] ;;
+    -- an input list naming the same output twice is refused
+    flag "spent[*prevOut] exists" "cti.dup" ;;
+    ifR (nz "cti.dup") (.set "err" (.k E.invalidParameter)) ;;
+    MA "spent[*prevOut]" "spent" ;;
     .invoke Fn.existsMsgTx ;;
     .ite (.and (nz "perr") (nz "perr.notfound")) (.invoke Fn.existsUnminedTx) .skip ;;
     ifR (nz "perr") (.set "err" (.k E.invalidParameter)) ;;
@@ -2021,7 +1884,7 @@ def f_GetTxHistory : Stmt :=
           D "txOut" "PkScript" ;;
           .call "utils.ParsePkScript" ["ps", "err"] (onOk "err" [.nz "ps"]) ;;
           ifR (nz "err") .skip ;;
-          .invoke Fn.AmountToString_wm ;;
+          .invoke Fn.AmountToString_common ;;
           ifR (nz "ats.err") (.set "err" (.v "ats.err")) ;;
           D "ps" "StdEncodeAddress")))) ;;
   .call "len(histories)" ["histories"] [] ;;
@@ -2272,6 +2135,13 @@ def f_filterBlock : Stmt :=
   MA "addedExpireMempool[block.Header.Height]" "addedExpireMempool" ;;
   .invoke Fn.onRelevantBlockConnected ;;
   ifR (nz "err") .skip ;;
+  -- a transaction that is not relevant itself may still double-spend an unmined one; the elements of
+  -- irrelevantTxs are transactions of the (decoded) block: non-nil
+  .call "len(irrelevantTxs)" ["fb.irr"] [] ;;
+  .loop "fb.j" "fb.irr" [] (
+    .call "range irrelevantTxs" ["fb.tx"] (always [.nz "fb.tx"]) ;;
+    .call "w.txStore.RemoveUnminedConflicts" ["err"] [] ;;
+    ifR (nz "err") (Dt "tx .TxHash" "fb.tx")) ;;
   .call "w.syncStore.SetSyncedTo" ["err"] []
 
 def f_disconnectBlock : Stmt :=
@@ -2385,6 +2255,18 @@ def f_asyncImport : Stmt :=
     .call "w.utxoStore.GrossBalance" ["err"] [] ;;
     ifR (nz "err") .skip ;;
     D "ws" "SyncedHeight" ;;
+    flag "stop > ws.SyncedHeight" "ai.more" ;;
+    .ite (nz "ai.more") (
+      .call "fetcher.FetchBlockShaByHeight" ["sha", "err", "err.notfound"] [] ;;
+      ifR (.and (nz "err") (isz "err.notfound")) .skip ;;
+      .call "w.syncStore.SyncedBlock" ["synced", "err"] [] ;;
+      ifR (nz "err") .skip ;;
+      -- `sha == nil || synced == nil || *sha != synced.Hash` → ErrImportingContinuable
+      ifR (.or (isz "sha") (isz "synced")) (.set "err" (.k E.other)) ;;
+      Dt "*sha" "sha" ;;
+      D "synced" "Hash" ;;
+      flag "*sha != synced.Hash" "ai.diff" ;;
+      ifR (nz "ai.diff") (.set "err" (.k E.other))) .skip ;;
     .call "fetcher.FetchScriptHashRelatedTx" ["result", "err"] (onOk "err" [.nz "result"]) ;;
     ifR (nz "err") .skip ;;
     D "result" "Heights" ;;
@@ -2439,21 +2321,30 @@ def f_asyncImport : Stmt :=
 def f_asyncRemove : Stmt :=
   .call "w.ksmgr.GetAddrManagerByAccountID" ["am", "err"] [] ;;
   ifR (nz "err") (.set "err" (.k 0)) ;;
-  .invoke Fn.suspend ;;
-  ifR (isz "suspended") (.set "err" (.k E.other)) ;;
-  .call "phase 1: unspent, addresses, histories, balance" ["err"] [] ;;
-  .invoke Fn.resume ;;
-  ifR (nz "err") .skip ;;
-  .call "phase 2 rounds" ["ar.n"] [] ;;
+  .call "removal rounds" ["ar.n"] [] ;;
   .loop "ar.i" "ar.n" [] (
     .invoke Fn.suspend ;;
     ifR (isz "suspended") (.set "err" (.k E.other)) ;;
-    .call "w.txStore.RemoveRelevantTx (+ DeleteWalletStatus, DeleteKeystore when finished)" ["err", "finish"] [] ;;
+    .call "w.txStore.RemoveRelevantTx" ["err", "finish"] [] ;;
+    -- the records keyed by the wallet id go in the same transaction as the keystore
+    .ite (nz "finish") (
+      .invoke Fn.removeWalletIndexes ;;
+      .ite (isz "err") (.call "w.syncStore.DeleteWalletStatus, w.ksmgr.DeleteKeystore" ["err"] []) .skip) .skip ;;
     .invoke Fn.resume ;;
     ifR (nz "err") .skip ;;
     .invoke Fn.RemoveMempoolTx ;;
     ifR (nz "finish") (.set "err" (.k 0))) ;;
   .set "err" (.k E.other)
+
+/-- unspent index, address records, staking/binding histories and the balance of a wallet -/
+def f_removeWalletIndexes : Stmt :=
+  .call "w.utxoStore.RemoveUnspentByWalletId" ["err"] [] ;;
+  ifR (nz "err") .skip ;;
+  .call "w.utxoStore.RemoveAddressByWalletId" ["err"] [] ;;
+  ifR (nz "err") .skip ;;
+  .call "w.utxoStore.RemoveGameHistoryByWalletId" ["err"] [] ;;
+  ifR (nz "err") .skip ;;
+  .call "w.utxoStore.RemoveMinedBalance" ["err"] []
 
 def f_OnImportWallet : Stmt := .skip
 
@@ -2530,330 +2421,179 @@ def f_Recover : Stmt := .skip
 
 -- ==================================================================== the table
 
-/-- every function of the anchored files (same keys, same order as MW.Gen.Sites.table); functions without
-    partial operations that are not on a request / follower path are `skip` -/
-def progs : List (String × Stmt) := [
-  ("api/api_server.go:APIServer.RunGateway", .skip),
-  ("api/api_server.go:APIServer.Start", .skip),
-  ("api/api_server.go:APIServer.Stop", .skip),
-  ("api/api_server.go:NewAPIServer", .skip),
-  ("api/api_server.go:generateRPCKeyPair", .skip),
-  ("api/api_server.go:openRPCKeyPair", .skip),
-  ("api/tx_service.go:APIServer.AutoCreateTransaction", f_AutoCreateTransaction),
-  ("api/tx_service.go:APIServer.CheckPoolPkCoinbase", f_CheckPoolPkCoinbase),
-  ("api/tx_service.go:APIServer.CheckTargetBinding", f_CheckTargetBinding),
-  ("api/tx_service.go:APIServer.CreateBindingTransaction", f_CreateBindingTransaction_api),
-  ("api/tx_service.go:APIServer.CreatePoolPkCoinbaseTransaction", f_CreatePoolPkCoinbaseTransaction),
-  ("api/tx_service.go:APIServer.CreateRawTransaction", f_CreateRawTransaction_api),
-  ("api/tx_service.go:APIServer.CreateStakingTransaction", f_CreateStakingTransaction_api),
-  ("api/tx_service.go:APIServer.DecodeRawTransaction", f_DecodeRawTransaction),
-  ("api/tx_service.go:APIServer.GetBindingHistory", f_GetBindingHistory_api),
-  ("api/tx_service.go:APIServer.GetNetworkBinding", f_GetNetworkBinding),
-  ("api/tx_service.go:APIServer.GetRawTransaction", f_GetRawTransaction),
-  ("api/tx_service.go:APIServer.GetStakingHistory", f_GetStakingHistory_api),
-  ("api/tx_service.go:APIServer.GetTransactionFee", f_GetTransactionFee),
-  ("api/tx_service.go:APIServer.GetTxStatus", f_GetTxStatus),
-  ("api/tx_service.go:APIServer.SendRawTransaction", f_SendRawTransaction),
-  ("api/tx_service.go:APIServer.TxHistory", f_TxHistory),
-  ("api/tx_service.go:APIServer.buildDecodeRawTxResponse", f_buildDecodeRawTxResponse),
-  ("api/tx_service.go:APIServer.createTxRawResult", f_createTxRawResult),
-  ("api/tx_service.go:APIServer.createVinList", f_createVinList),
-  ("api/tx_service.go:APIServer.getStatus", f_getStatus),
-  ("api/tx_service.go:createVoutList", f_createVoutList),
-  ("api/tx_service.go:getEstimateStakingAddress", f_getEstimateStakingAddress),
-  ("api/tx_service.go:messageToHex", f_messageToHex_api),
-  ("api/tx_service.go:mockBindingTarget", f_mockBindingTarget),
-  ("api/tx_service.go:witnessToHex", f_witnessToHex),
-  ("api/util.go:AmountToString", f_AmountToString),
-  ("api/util.go:StringToAmount", f_StringToAmount),
-  ("api/util.go:checkAddressLen", f_checkAddressLen),
-  ("api/util.go:checkFormatAmount", f_checkFormatAmount),
-  ("api/util.go:checkLocktime", f_checkLocktime),
-  ("api/util.go:checkMnemonicLen", f_checkMnemonicLen),
-  ("api/util.go:checkNotEmpty", f_checkNotEmpty),
-  ("api/util.go:checkParseAmount", f_checkParseAmount),
-  ("api/util.go:checkPassLen", f_checkPassLen),
-  ("api/util.go:checkRemarksLen", f_checkRemarksLen),
-  ("api/util.go:checkTransactionIdLen", f_checkTransactionIdLen),
-  ("api/util.go:checkTxFeeLimit", f_checkTxFeeLimit),
-  ("api/util.go:checkWalletIdLen", f_checkWalletIdLen),
-  ("api/util.go:checkWitnessAddress", f_checkWitnessAddress),
-  ("api/util.go:convertResponseError", f_convertResponseError),
-  ("api/util.go:extractAddressInfos", f_extractAddressInfos),
-  ("api/util.go:isEmpty", f_isEmpty),
-  ("api/util.go:parseBindingTarget", f_parseBindingTarget),
-  ("api/wallet_service.go:APIServer.CreateAddress", f_CreateAddress),
-  ("api/wallet_service.go:APIServer.CreateWallet", f_CreateWallet_api),
-  ("api/wallet_service.go:APIServer.ExportWallet", f_ExportWallet_api),
-  ("api/wallet_service.go:APIServer.GetAddressBalance", f_GetAddressBalance),
-  ("api/wallet_service.go:APIServer.GetAddresses", f_GetAddresses_api),
-  ("api/wallet_service.go:APIServer.GetClientStatus", f_GetClientStatus),
-  ("api/wallet_service.go:APIServer.GetUtxo", f_GetUtxo_api),
-  ("api/wallet_service.go:APIServer.GetWalletBalance", f_GetWalletBalance),
-  ("api/wallet_service.go:APIServer.GetWalletMnemonic", f_GetWalletMnemonic),
-  ("api/wallet_service.go:APIServer.ImportMnemonic", f_ImportMnemonic),
-  ("api/wallet_service.go:APIServer.ImportWallet", f_ImportWallet_api),
-  ("api/wallet_service.go:APIServer.QuitClient", f_QuitClient),
-  ("api/wallet_service.go:APIServer.RemoveWallet", f_RemoveWallet_api),
-  ("api/wallet_service.go:APIServer.SignRawTransaction", f_SignRawTransaction),
-  ("api/wallet_service.go:APIServer.UseWallet", f_UseWallet_api),
-  ("api/wallet_service.go:APIServer.ValidateAddress", f_ValidateAddress),
-  ("api/wallet_service.go:APIServer.Wallets", f_Wallets_api),
-  ("api/wallet_service.go:decodeHexStr", f_decodeHexStr),
-  ("masswallet/common.go:AmountToString", f_AmountToString),
-  ("masswallet/common.go:PayToWitnessV0Address", f_PayToWitnessV0Address),
-  ("masswallet/common.go:WalletManager.addTxIn", f_addTxIn),
-  ("masswallet/common.go:WalletManager.autoConstructTxInAndChangeTxOut", f_autoConstructTxInAndChangeTxOut),
-  ("masswallet/common.go:WalletManager.existsMsgTx", f_existsMsgTx),
-  ("masswallet/common.go:WalletManager.existsOutPoint", f_existsOutPoint),
-  ("masswallet/common.go:WalletManager.existsUnminedTx", f_existsUnminedTx),
-  ("masswallet/common.go:WalletManager.prepareFromAddresses", f_prepareFromAddresses),
-  ("masswallet/common.go:amountToTxOut", f_amountToTxOut),
-  ("masswallet/common.go:maybeSubtractFeeFromAmounts", f_maybeSubtractFeeFromAmounts),
-  ("masswallet/ntfnshandler.go:NewNtfnsHandler", f_NewNtfnsHandler),
-  ("masswallet/ntfnshandler.go:NtfnsHandler.IsWorkerBusy", f_IsWorkerBusy),
-  ("masswallet/ntfnshandler.go:NtfnsHandler.OnBlockConnected", f_OnBlockConnected),
-  ("masswallet/ntfnshandler.go:NtfnsHandler.OnImportWallet", f_OnImportWallet),
-  ("masswallet/ntfnshandler.go:NtfnsHandler.OnRemoveWallet", f_OnRemoveWallet),
-  ("masswallet/ntfnshandler.go:NtfnsHandler.OnTransactionReceived", f_OnTransactionReceived),
-  ("masswallet/ntfnshandler.go:NtfnsHandler.RemoveMempoolTx", f_RemoveMempoolTx),
-  ("masswallet/ntfnshandler.go:NtfnsHandler.Start", f_Start),
-  ("masswallet/ntfnshandler.go:NtfnsHandler.Stop", f_Stop),
-  ("masswallet/ntfnshandler.go:NtfnsHandler.asyncImport", f_asyncImport),
-  ("masswallet/ntfnshandler.go:NtfnsHandler.asyncRemove", f_asyncRemove),
-  ("masswallet/ntfnshandler.go:NtfnsHandler.disconnectBlock", f_disconnectBlock),
-  ("masswallet/ntfnshandler.go:NtfnsHandler.filterBlock", f_filterBlock),
-  ("masswallet/ntfnshandler.go:NtfnsHandler.filterTx", f_filterTx),
-  ("masswallet/ntfnshandler.go:NtfnsHandler.filterTxForImporting", f_filterTxForImporting),
-  ("masswallet/ntfnshandler.go:NtfnsHandler.getBlock", f_getBlock),
-  ("masswallet/ntfnshandler.go:NtfnsHandler.getReadyWallets", f_getReadyWallets),
-  ("masswallet/ntfnshandler.go:NtfnsHandler.initTaskChan", f_initTaskChan),
-  ("masswallet/ntfnshandler.go:NtfnsHandler.onRelevantBlockConnected", f_onRelevantBlockConnected),
-  ("masswallet/ntfnshandler.go:NtfnsHandler.onRelevantTx", f_onRelevantTx),
-  ("masswallet/ntfnshandler.go:NtfnsHandler.proccessReceivedTx", f_proccessReceivedTx),
-  ("masswallet/ntfnshandler.go:NtfnsHandler.processConnectedBlock", f_processConnectedBlock),
-  ("masswallet/ntfnshandler.go:NtfnsHandler.reorg", f_reorg),
-  ("masswallet/ntfnshandler.go:NtfnsHandler.resume", f_resume),
-  ("masswallet/ntfnshandler.go:NtfnsHandler.suspend", f_suspend),
-  ("masswallet/ntfnshandler.go:Recover", f_Recover),
-  ("masswallet/ntfnshandler.go:handle", f_handle),
-  ("masswallet/ntfnshandler.go:worker", f_worker),
-  ("masswallet/tx.go:WalletManager.EstimateBindingTxFee", f_EstimateBindingTxFee),
-  ("masswallet/tx.go:WalletManager.EstimateManualTxFee", f_EstimateManualTxFee),
-  ("masswallet/tx.go:WalletManager.EstimateStakingTxFee", f_EstimateStakingTxFee),
-  ("masswallet/tx.go:WalletManager.EstimateTxFee", f_EstimateTxFee),
-  ("masswallet/tx.go:WalletManager.GetTxHistory", f_GetTxHistory),
-  ("masswallet/tx.go:WalletManager.SignHash", f_SignHash),
-  ("masswallet/tx.go:WalletManager.constructTxIn", f_constructTxIn),
-  ("masswallet/tx.go:WalletManager.constructTxOut", f_constructTxOut),
-  ("masswallet/tx.go:WalletManager.estimateSignedSize", f_estimateSignedSize),
-  ("masswallet/tx.go:WalletManager.findEligibleUtxos", f_findEligibleUtxos),
-  ("masswallet/tx.go:WalletManager.getUtxos", f_getUtxos),
-  ("masswallet/tx.go:WalletManager.getUtxosExcludeBindingAndStaking", f_getUtxosExcludeBindingAndStaking),
-  ("masswallet/tx.go:WalletManager.signWitnessTx", f_signWitnessTx),
-  ("masswallet/tx.go:constructStakingTxOut", f_constructStakingTxOut),
-  ("masswallet/tx.go:messageToHex", f_messageToHex),
-  ("masswallet/tx.go:optOutputs", f_optOutputs),
-  ("masswallet/tx.go:selectRelatedTx", f_selectRelatedTx),
-  ("masswallet/wallet.go:NewWalletManager", f_NewWalletManager),
-  ("masswallet/wallet.go:WalletManager.AddressBalance", f_AddressBalance),
-  ("masswallet/wallet.go:WalletManager.AutoCreateRawTransaction", f_AutoCreateRawTransaction),
-  ("masswallet/wallet.go:WalletManager.ChainIndexerSyncedHeight", f_ChainIndexerSyncedHeight),
-  ("masswallet/wallet.go:WalletManager.ChangePrivPassphrase", f_ChangePrivPassphrase),
-  ("masswallet/wallet.go:WalletManager.CheckReady", f_CheckReady),
-  ("masswallet/wallet.go:WalletManager.ClearUsedUTXOMark", f_ClearUsedUTXOMark),
-  ("masswallet/wallet.go:WalletManager.CloseDB", f_CloseDB),
-  ("masswallet/wallet.go:WalletManager.CountAll", f_CountAll),
-  ("masswallet/wallet.go:WalletManager.CreateBindingTransaction", f_CreateBindingTransaction),
-  ("masswallet/wallet.go:WalletManager.CreateRawTransaction", f_CreateRawTransaction),
-  ("masswallet/wallet.go:WalletManager.CreateStakingTransaction", f_CreateStakingTransaction),
-  ("masswallet/wallet.go:WalletManager.CreateWallet", f_CreateWallet),
-  ("masswallet/wallet.go:WalletManager.CurrentWallet", f_CurrentWallet),
-  ("masswallet/wallet.go:WalletManager.ExportWallet", f_ExportWallet),
-  ("masswallet/wallet.go:WalletManager.GetAddresses", f_GetAddresses),
-  ("masswallet/wallet.go:WalletManager.GetAllAddressesWithPubkey", f_GetAllAddressesWithPubkey),
-  ("masswallet/wallet.go:WalletManager.GetBindingHistory", f_GetBindingHistory),
-  ("masswallet/wallet.go:WalletManager.GetMnemonic", f_GetMnemonic),
-  ("masswallet/wallet.go:WalletManager.GetStakingHistory", f_GetStakingHistory),
-  ("masswallet/wallet.go:WalletManager.GetUtxo", f_GetUtxo),
-  ("masswallet/wallet.go:WalletManager.ImportWallet", f_ImportWallet),
-  ("masswallet/wallet.go:WalletManager.ImportWalletWithMnemonic", f_ImportWalletWithMnemonic),
-  ("masswallet/wallet.go:WalletManager.IsAddressInCurrent", f_IsAddressInCurrent),
-  ("masswallet/wallet.go:WalletManager.MarkUsedUTXO", f_MarkUsedUTXO),
-  ("masswallet/wallet.go:WalletManager.NewAddress", f_NewAddress),
-  ("masswallet/wallet.go:WalletManager.RemoveWallet", f_RemoveWallet),
-  ("masswallet/wallet.go:WalletManager.SignRawTx", f_SignRawTx),
-  ("masswallet/wallet.go:WalletManager.Start", f_Start_wm),
-  ("masswallet/wallet.go:WalletManager.Stop", f_Stop_wm),
-  ("masswallet/wallet.go:WalletManager.SyncedTo", f_SyncedTo),
-  ("masswallet/wallet.go:WalletManager.UTXOUsed", f_UTXOUsed),
-  ("masswallet/wallet.go:WalletManager.UseWallet", f_UseWallet),
-  ("masswallet/wallet.go:WalletManager.WalletBalance", f_WalletBalance),
-  ("masswallet/wallet.go:WalletManager.Wallets", f_Wallets),
-  ("masswallet/wallet.go:checkInit", f_checkInit)]
+/-- the hand-written skeletons, keyed by the generated position constants `Fn.*` (MW.Gen.ApiFn). A function
+    of the anchored files that is not listed here has the empty skeleton – right exactly when the extractor
+    finds no site in it (`sites_match`), so a new function without partial operations needs no entry. -/
+def bodies : List (Nat × Stmt) := [
+  (Fn.AutoCreateTransaction, f_AutoCreateTransaction),
+  (Fn.CheckPoolPkCoinbase, f_CheckPoolPkCoinbase),
+  (Fn.CheckTargetBinding, f_CheckTargetBinding),
+  (Fn.CreateBindingTransaction_tx_service, f_CreateBindingTransaction_api),
+  (Fn.CreatePoolPkCoinbaseTransaction, f_CreatePoolPkCoinbaseTransaction),
+  (Fn.CreateRawTransaction_tx_service, f_CreateRawTransaction_api),
+  (Fn.CreateStakingTransaction_tx_service, f_CreateStakingTransaction_api),
+  (Fn.DecodeRawTransaction, f_DecodeRawTransaction),
+  (Fn.GetBindingHistory_tx_service, f_GetBindingHistory_api),
+  (Fn.GetNetworkBinding, f_GetNetworkBinding),
+  (Fn.GetRawTransaction, f_GetRawTransaction),
+  (Fn.GetStakingHistory_tx_service, f_GetStakingHistory_api),
+  (Fn.GetTransactionFee, f_GetTransactionFee),
+  (Fn.GetTxStatus, f_GetTxStatus),
+  (Fn.SendRawTransaction, f_SendRawTransaction),
+  (Fn.TxHistory, f_TxHistory),
+  (Fn.buildDecodeRawTxResponse, f_buildDecodeRawTxResponse),
+  (Fn.createTxRawResult, f_createTxRawResult),
+  (Fn.createVinList, f_createVinList),
+  (Fn.getStatus, f_getStatus),
+  (Fn.createVoutList, f_createVoutList),
+  (Fn.getEstimateStakingAddress, f_getEstimateStakingAddress),
+  (Fn.messageToHex_tx_service, f_messageToHex_api),
+  (Fn.mockBindingTarget, f_mockBindingTarget),
+  (Fn.witnessToHex, f_witnessToHex),
+  (Fn.AmountToString_util, f_AmountToString),
+  (Fn.StringToAmount, f_StringToAmount),
+  (Fn.checkAddressLen, f_checkAddressLen),
+  (Fn.checkFormatAmount, f_checkFormatAmount),
+  (Fn.checkLocktime, f_checkLocktime),
+  (Fn.checkMnemonicLen, f_checkMnemonicLen),
+  (Fn.checkNotEmpty, f_checkNotEmpty),
+  (Fn.checkParseAmount, f_checkParseAmount),
+  (Fn.checkPassLen, f_checkPassLen),
+  (Fn.checkRemarksLen, f_checkRemarksLen),
+  (Fn.checkTransactionIdLen, f_checkTransactionIdLen),
+  (Fn.checkTxFeeLimit, f_checkTxFeeLimit),
+  (Fn.releaseDraft, f_releaseDraft),
+  (Fn.checkWalletIdLen, f_checkWalletIdLen),
+  (Fn.checkWitnessAddress, f_checkWitnessAddress),
+  (Fn.convertResponseError, f_convertResponseError),
+  (Fn.extractAddressInfos, f_extractAddressInfos),
+  (Fn.isEmpty, f_isEmpty),
+  (Fn.parseBindingTarget, f_parseBindingTarget),
+  (Fn.CreateAddress, f_CreateAddress),
+  (Fn.CreateWallet_wallet_service, f_CreateWallet_api),
+  (Fn.ExportWallet_wallet_service, f_ExportWallet_api),
+  (Fn.GetAddressBalance, f_GetAddressBalance),
+  (Fn.GetAddresses_wallet_service, f_GetAddresses_api),
+  (Fn.GetClientStatus, f_GetClientStatus),
+  (Fn.GetUtxo_wallet_service, f_GetUtxo_api),
+  (Fn.GetWalletBalance, f_GetWalletBalance),
+  (Fn.GetWalletMnemonic, f_GetWalletMnemonic),
+  (Fn.ImportMnemonic, f_ImportMnemonic),
+  (Fn.ImportWallet_wallet_service, f_ImportWallet_api),
+  (Fn.QuitClient, f_QuitClient),
+  (Fn.RemoveWallet_wallet_service, f_RemoveWallet_api),
+  (Fn.SignRawTransaction, f_SignRawTransaction),
+  (Fn.UseWallet_wallet_service, f_UseWallet_api),
+  (Fn.ValidateAddress, f_ValidateAddress),
+  (Fn.Wallets_wallet_service, f_Wallets_api),
+  (Fn.decodeHexStr, f_decodeHexStr),
+  (Fn.AmountToString_common, f_AmountToString),
+  (Fn.PayToWitnessV0Address, f_PayToWitnessV0Address),
+  (Fn.addTxIn, f_addTxIn),
+  (Fn.autoConstructTxInAndChangeTxOut, f_autoConstructTxInAndChangeTxOut),
+  (Fn.existsMsgTx, f_existsMsgTx),
+  (Fn.existsOutPoint, f_existsOutPoint),
+  (Fn.existsUnminedTx, f_existsUnminedTx),
+  (Fn.prepareFromAddresses, f_prepareFromAddresses),
+  (Fn.amountToTxOut, f_amountToTxOut),
+  (Fn.maybeSubtractFeeFromAmounts, f_maybeSubtractFeeFromAmounts),
+  (Fn.NewNtfnsHandler, f_NewNtfnsHandler),
+  (Fn.IsWorkerBusy, f_IsWorkerBusy),
+  (Fn.OnBlockConnected, f_OnBlockConnected),
+  (Fn.OnImportWallet, f_OnImportWallet),
+  (Fn.OnRemoveWallet, f_OnRemoveWallet),
+  (Fn.OnTransactionReceived, f_OnTransactionReceived),
+  (Fn.RemoveMempoolTx, f_RemoveMempoolTx),
+  (Fn.Start_ntfnshandler, f_Start),
+  (Fn.Stop_ntfnshandler, f_Stop),
+  (Fn.asyncImport, f_asyncImport),
+  (Fn.asyncRemove, f_asyncRemove),
+  (Fn.removeWalletIndexes, f_removeWalletIndexes),
+  (Fn.disconnectBlock, f_disconnectBlock),
+  (Fn.filterBlock, f_filterBlock),
+  (Fn.filterTx, f_filterTx),
+  (Fn.filterTxForImporting, f_filterTxForImporting),
+  (Fn.getBlock, f_getBlock),
+  (Fn.getReadyWallets, f_getReadyWallets),
+  (Fn.initTaskChan, f_initTaskChan),
+  (Fn.onRelevantBlockConnected, f_onRelevantBlockConnected),
+  (Fn.onRelevantTx, f_onRelevantTx),
+  (Fn.proccessReceivedTx, f_proccessReceivedTx),
+  (Fn.processConnectedBlock, f_processConnectedBlock),
+  (Fn.reorg, f_reorg),
+  (Fn.resume, f_resume),
+  (Fn.suspend, f_suspend),
+  (Fn.Recover, f_Recover),
+  (Fn.handle, f_handle),
+  (Fn.worker, f_worker),
+  (Fn.EstimateBindingTxFee, f_EstimateBindingTxFee),
+  (Fn.EstimateManualTxFee, f_EstimateManualTxFee),
+  (Fn.EstimateStakingTxFee, f_EstimateStakingTxFee),
+  (Fn.EstimateTxFee, f_EstimateTxFee),
+  (Fn.GetTxHistory, f_GetTxHistory),
+  (Fn.SignHash, f_SignHash),
+  (Fn.constructTxIn, f_constructTxIn),
+  (Fn.constructTxOut, f_constructTxOut),
+  (Fn.estimateSignedSize, f_estimateSignedSize),
+  (Fn.findEligibleUtxos, f_findEligibleUtxos),
+  (Fn.getUtxos, f_getUtxos),
+  (Fn.getUtxosExcludeBindingAndStaking, f_getUtxosExcludeBindingAndStaking),
+  (Fn.signWitnessTx, f_signWitnessTx),
+  (Fn.constructStakingTxOut, f_constructStakingTxOut),
+  (Fn.messageToHex_tx, f_messageToHex),
+  (Fn.optOutputs, f_optOutputs),
+  (Fn.selectRelatedTx, f_selectRelatedTx),
+  (Fn.NewWalletManager, f_NewWalletManager),
+  (Fn.AddressBalance, f_AddressBalance),
+  (Fn.AutoCreateRawTransaction, f_AutoCreateRawTransaction),
+  (Fn.ChainIndexerSyncedHeight, f_ChainIndexerSyncedHeight),
+  (Fn.ChangePrivPassphrase, f_ChangePrivPassphrase),
+  (Fn.CheckReady, f_CheckReady),
+  (Fn.ClearUsedUTXOMark, f_ClearUsedUTXOMark),
+  (Fn.CloseDB, f_CloseDB),
+  (Fn.CountAll, f_CountAll),
+  (Fn.CreateBindingTransaction_wallet, f_CreateBindingTransaction),
+  (Fn.CreateRawTransaction_wallet, f_CreateRawTransaction),
+  (Fn.CreateStakingTransaction_wallet, f_CreateStakingTransaction),
+  (Fn.CreateWallet_wallet, f_CreateWallet),
+  (Fn.CurrentWallet, f_CurrentWallet),
+  (Fn.ExportWallet_wallet, f_ExportWallet),
+  (Fn.GetAddresses_wallet, f_GetAddresses),
+  (Fn.GetAllAddressesWithPubkey, f_GetAllAddressesWithPubkey),
+  (Fn.GetBindingHistory_wallet, f_GetBindingHistory),
+  (Fn.GetMnemonic, f_GetMnemonic),
+  (Fn.GetStakingHistory_wallet, f_GetStakingHistory),
+  (Fn.GetUtxo_wallet, f_GetUtxo),
+  (Fn.ImportWallet_wallet, f_ImportWallet),
+  (Fn.ImportWalletWithMnemonic, f_ImportWalletWithMnemonic),
+  (Fn.IsAddressInCurrent, f_IsAddressInCurrent),
+  (Fn.MarkUsedUTXO, f_MarkUsedUTXO),
+  (Fn.NewAddress, f_NewAddress),
+  (Fn.RemoveWallet_wallet, f_RemoveWallet),
+  (Fn.SignRawTx, f_SignRawTx),
+  (Fn.Start_wallet, f_Start_wm),
+  (Fn.Stop_wallet, f_Stop_wm),
+  (Fn.SyncedTo, f_SyncedTo),
+  (Fn.UTXOUsed, f_UTXOUsed),
+  (Fn.UseWallet_wallet, f_UseWallet),
+  (Fn.WalletBalance, f_WalletBalance),
+  (Fn.Wallets_wallet, f_Wallets),
+  (Fn.checkInit, f_checkInit)]
 
-def prog : Prog := fun f => (progs[f]?).map (·.2)
+def lookupFn : List (Nat × Stmt) → Nat → Option Stmt
+  | [], _ => none
+  | (g, s) :: r, f => if g == f then some s else lookupFn r f
 
-/-- the table position every `Fn` constant stands for -/
-def fnIndex : List (Nat × String) := [
-  (Fn.APIServer_RunGateway_api_server, "api/api_server.go:APIServer.RunGateway"),
-  (Fn.APIServer_Start_api_server, "api/api_server.go:APIServer.Start"),
-  (Fn.APIServer_Stop_api_server, "api/api_server.go:APIServer.Stop"),
-  (Fn.NewAPIServer_api_server, "api/api_server.go:NewAPIServer"),
-  (Fn.generateRPCKeyPair_api_server, "api/api_server.go:generateRPCKeyPair"),
-  (Fn.openRPCKeyPair_api_server, "api/api_server.go:openRPCKeyPair"),
-  (Fn.AutoCreateTransaction, "api/tx_service.go:APIServer.AutoCreateTransaction"),
-  (Fn.CheckPoolPkCoinbase, "api/tx_service.go:APIServer.CheckPoolPkCoinbase"),
-  (Fn.CheckTargetBinding, "api/tx_service.go:APIServer.CheckTargetBinding"),
-  (Fn.CreateBindingTransaction_api, "api/tx_service.go:APIServer.CreateBindingTransaction"),
-  (Fn.CreatePoolPkCoinbaseTransaction, "api/tx_service.go:APIServer.CreatePoolPkCoinbaseTransaction"),
-  (Fn.CreateRawTransaction_api, "api/tx_service.go:APIServer.CreateRawTransaction"),
-  (Fn.CreateStakingTransaction_api, "api/tx_service.go:APIServer.CreateStakingTransaction"),
-  (Fn.DecodeRawTransaction, "api/tx_service.go:APIServer.DecodeRawTransaction"),
-  (Fn.GetBindingHistory_api, "api/tx_service.go:APIServer.GetBindingHistory"),
-  (Fn.GetNetworkBinding, "api/tx_service.go:APIServer.GetNetworkBinding"),
-  (Fn.GetRawTransaction, "api/tx_service.go:APIServer.GetRawTransaction"),
-  (Fn.GetStakingHistory_api, "api/tx_service.go:APIServer.GetStakingHistory"),
-  (Fn.GetTransactionFee, "api/tx_service.go:APIServer.GetTransactionFee"),
-  (Fn.GetTxStatus, "api/tx_service.go:APIServer.GetTxStatus"),
-  (Fn.SendRawTransaction, "api/tx_service.go:APIServer.SendRawTransaction"),
-  (Fn.TxHistory, "api/tx_service.go:APIServer.TxHistory"),
-  (Fn.buildDecodeRawTxResponse, "api/tx_service.go:APIServer.buildDecodeRawTxResponse"),
-  (Fn.createTxRawResult, "api/tx_service.go:APIServer.createTxRawResult"),
-  (Fn.createVinList, "api/tx_service.go:APIServer.createVinList"),
-  (Fn.getStatus, "api/tx_service.go:APIServer.getStatus"),
-  (Fn.createVoutList, "api/tx_service.go:createVoutList"),
-  (Fn.getEstimateStakingAddress, "api/tx_service.go:getEstimateStakingAddress"),
-  (Fn.messageToHex_api, "api/tx_service.go:messageToHex"),
-  (Fn.mockBindingTarget, "api/tx_service.go:mockBindingTarget"),
-  (Fn.witnessToHex, "api/tx_service.go:witnessToHex"),
-  (Fn.AmountToString, "api/util.go:AmountToString"),
-  (Fn.StringToAmount, "api/util.go:StringToAmount"),
-  (Fn.checkAddressLen, "api/util.go:checkAddressLen"),
-  (Fn.checkFormatAmount, "api/util.go:checkFormatAmount"),
-  (Fn.checkLocktime, "api/util.go:checkLocktime"),
-  (Fn.checkMnemonicLen, "api/util.go:checkMnemonicLen"),
-  (Fn.checkNotEmpty, "api/util.go:checkNotEmpty"),
-  (Fn.checkParseAmount, "api/util.go:checkParseAmount"),
-  (Fn.checkPassLen, "api/util.go:checkPassLen"),
-  (Fn.checkRemarksLen, "api/util.go:checkRemarksLen"),
-  (Fn.checkTransactionIdLen, "api/util.go:checkTransactionIdLen"),
-  (Fn.checkTxFeeLimit, "api/util.go:checkTxFeeLimit"),
-  (Fn.checkWalletIdLen, "api/util.go:checkWalletIdLen"),
-  (Fn.checkWitnessAddress, "api/util.go:checkWitnessAddress"),
-  (Fn.convertResponseError, "api/util.go:convertResponseError"),
-  (Fn.extractAddressInfos, "api/util.go:extractAddressInfos"),
-  (Fn.isEmpty, "api/util.go:isEmpty"),
-  (Fn.parseBindingTarget, "api/util.go:parseBindingTarget"),
-  (Fn.CreateAddress, "api/wallet_service.go:APIServer.CreateAddress"),
-  (Fn.CreateWallet_api, "api/wallet_service.go:APIServer.CreateWallet"),
-  (Fn.ExportWallet_api, "api/wallet_service.go:APIServer.ExportWallet"),
-  (Fn.GetAddressBalance, "api/wallet_service.go:APIServer.GetAddressBalance"),
-  (Fn.GetAddresses_api, "api/wallet_service.go:APIServer.GetAddresses"),
-  (Fn.GetClientStatus, "api/wallet_service.go:APIServer.GetClientStatus"),
-  (Fn.GetUtxo_api, "api/wallet_service.go:APIServer.GetUtxo"),
-  (Fn.GetWalletBalance, "api/wallet_service.go:APIServer.GetWalletBalance"),
-  (Fn.GetWalletMnemonic, "api/wallet_service.go:APIServer.GetWalletMnemonic"),
-  (Fn.ImportMnemonic, "api/wallet_service.go:APIServer.ImportMnemonic"),
-  (Fn.ImportWallet_api, "api/wallet_service.go:APIServer.ImportWallet"),
-  (Fn.QuitClient, "api/wallet_service.go:APIServer.QuitClient"),
-  (Fn.RemoveWallet_api, "api/wallet_service.go:APIServer.RemoveWallet"),
-  (Fn.SignRawTransaction, "api/wallet_service.go:APIServer.SignRawTransaction"),
-  (Fn.UseWallet_api, "api/wallet_service.go:APIServer.UseWallet"),
-  (Fn.ValidateAddress, "api/wallet_service.go:APIServer.ValidateAddress"),
-  (Fn.Wallets_api, "api/wallet_service.go:APIServer.Wallets"),
-  (Fn.decodeHexStr, "api/wallet_service.go:decodeHexStr"),
-  (Fn.AmountToString_wm, "masswallet/common.go:AmountToString"),
-  (Fn.PayToWitnessV0Address, "masswallet/common.go:PayToWitnessV0Address"),
-  (Fn.addTxIn, "masswallet/common.go:WalletManager.addTxIn"),
-  (Fn.autoConstructTxInAndChangeTxOut, "masswallet/common.go:WalletManager.autoConstructTxInAndChangeTxOut"),
-  (Fn.existsMsgTx, "masswallet/common.go:WalletManager.existsMsgTx"),
-  (Fn.existsOutPoint, "masswallet/common.go:WalletManager.existsOutPoint"),
-  (Fn.existsUnminedTx, "masswallet/common.go:WalletManager.existsUnminedTx"),
-  (Fn.prepareFromAddresses, "masswallet/common.go:WalletManager.prepareFromAddresses"),
-  (Fn.amountToTxOut, "masswallet/common.go:amountToTxOut"),
-  (Fn.maybeSubtractFeeFromAmounts, "masswallet/common.go:maybeSubtractFeeFromAmounts"),
-  (Fn.NewNtfnsHandler, "masswallet/ntfnshandler.go:NewNtfnsHandler"),
-  (Fn.IsWorkerBusy, "masswallet/ntfnshandler.go:NtfnsHandler.IsWorkerBusy"),
-  (Fn.OnBlockConnected, "masswallet/ntfnshandler.go:NtfnsHandler.OnBlockConnected"),
-  (Fn.OnImportWallet, "masswallet/ntfnshandler.go:NtfnsHandler.OnImportWallet"),
-  (Fn.OnRemoveWallet, "masswallet/ntfnshandler.go:NtfnsHandler.OnRemoveWallet"),
-  (Fn.OnTransactionReceived, "masswallet/ntfnshandler.go:NtfnsHandler.OnTransactionReceived"),
-  (Fn.RemoveMempoolTx, "masswallet/ntfnshandler.go:NtfnsHandler.RemoveMempoolTx"),
-  (Fn.Start, "masswallet/ntfnshandler.go:NtfnsHandler.Start"),
-  (Fn.Stop, "masswallet/ntfnshandler.go:NtfnsHandler.Stop"),
-  (Fn.asyncImport, "masswallet/ntfnshandler.go:NtfnsHandler.asyncImport"),
-  (Fn.asyncRemove, "masswallet/ntfnshandler.go:NtfnsHandler.asyncRemove"),
-  (Fn.disconnectBlock, "masswallet/ntfnshandler.go:NtfnsHandler.disconnectBlock"),
-  (Fn.filterBlock, "masswallet/ntfnshandler.go:NtfnsHandler.filterBlock"),
-  (Fn.filterTx, "masswallet/ntfnshandler.go:NtfnsHandler.filterTx"),
-  (Fn.filterTxForImporting, "masswallet/ntfnshandler.go:NtfnsHandler.filterTxForImporting"),
-  (Fn.getBlock, "masswallet/ntfnshandler.go:NtfnsHandler.getBlock"),
-  (Fn.getReadyWallets, "masswallet/ntfnshandler.go:NtfnsHandler.getReadyWallets"),
-  (Fn.initTaskChan, "masswallet/ntfnshandler.go:NtfnsHandler.initTaskChan"),
-  (Fn.onRelevantBlockConnected, "masswallet/ntfnshandler.go:NtfnsHandler.onRelevantBlockConnected"),
-  (Fn.onRelevantTx, "masswallet/ntfnshandler.go:NtfnsHandler.onRelevantTx"),
-  (Fn.proccessReceivedTx, "masswallet/ntfnshandler.go:NtfnsHandler.proccessReceivedTx"),
-  (Fn.processConnectedBlock, "masswallet/ntfnshandler.go:NtfnsHandler.processConnectedBlock"),
-  (Fn.reorg, "masswallet/ntfnshandler.go:NtfnsHandler.reorg"),
-  (Fn.resume, "masswallet/ntfnshandler.go:NtfnsHandler.resume"),
-  (Fn.suspend, "masswallet/ntfnshandler.go:NtfnsHandler.suspend"),
-  (Fn.Recover, "masswallet/ntfnshandler.go:Recover"),
-  (Fn.handle, "masswallet/ntfnshandler.go:handle"),
-  (Fn.worker, "masswallet/ntfnshandler.go:worker"),
-  (Fn.EstimateBindingTxFee, "masswallet/tx.go:WalletManager.EstimateBindingTxFee"),
-  (Fn.EstimateManualTxFee, "masswallet/tx.go:WalletManager.EstimateManualTxFee"),
-  (Fn.EstimateStakingTxFee, "masswallet/tx.go:WalletManager.EstimateStakingTxFee"),
-  (Fn.EstimateTxFee, "masswallet/tx.go:WalletManager.EstimateTxFee"),
-  (Fn.GetTxHistory, "masswallet/tx.go:WalletManager.GetTxHistory"),
-  (Fn.SignHash, "masswallet/tx.go:WalletManager.SignHash"),
-  (Fn.constructTxIn, "masswallet/tx.go:WalletManager.constructTxIn"),
-  (Fn.constructTxOut, "masswallet/tx.go:WalletManager.constructTxOut"),
-  (Fn.estimateSignedSize, "masswallet/tx.go:WalletManager.estimateSignedSize"),
-  (Fn.findEligibleUtxos, "masswallet/tx.go:WalletManager.findEligibleUtxos"),
-  (Fn.getUtxos, "masswallet/tx.go:WalletManager.getUtxos"),
-  (Fn.getUtxosExcludeBindingAndStaking, "masswallet/tx.go:WalletManager.getUtxosExcludeBindingAndStaking"),
-  (Fn.signWitnessTx, "masswallet/tx.go:WalletManager.signWitnessTx"),
-  (Fn.constructStakingTxOut, "masswallet/tx.go:constructStakingTxOut"),
-  (Fn.messageToHex, "masswallet/tx.go:messageToHex"),
-  (Fn.optOutputs, "masswallet/tx.go:optOutputs"),
-  (Fn.selectRelatedTx, "masswallet/tx.go:selectRelatedTx"),
-  (Fn.NewWalletManager, "masswallet/wallet.go:NewWalletManager"),
-  (Fn.AddressBalance, "masswallet/wallet.go:WalletManager.AddressBalance"),
-  (Fn.AutoCreateRawTransaction, "masswallet/wallet.go:WalletManager.AutoCreateRawTransaction"),
-  (Fn.ChainIndexerSyncedHeight, "masswallet/wallet.go:WalletManager.ChainIndexerSyncedHeight"),
-  (Fn.ChangePrivPassphrase, "masswallet/wallet.go:WalletManager.ChangePrivPassphrase"),
-  (Fn.CheckReady, "masswallet/wallet.go:WalletManager.CheckReady"),
-  (Fn.ClearUsedUTXOMark, "masswallet/wallet.go:WalletManager.ClearUsedUTXOMark"),
-  (Fn.CloseDB, "masswallet/wallet.go:WalletManager.CloseDB"),
-  (Fn.CountAll, "masswallet/wallet.go:WalletManager.CountAll"),
-  (Fn.CreateBindingTransaction, "masswallet/wallet.go:WalletManager.CreateBindingTransaction"),
-  (Fn.CreateRawTransaction, "masswallet/wallet.go:WalletManager.CreateRawTransaction"),
-  (Fn.CreateStakingTransaction, "masswallet/wallet.go:WalletManager.CreateStakingTransaction"),
-  (Fn.CreateWallet, "masswallet/wallet.go:WalletManager.CreateWallet"),
-  (Fn.CurrentWallet, "masswallet/wallet.go:WalletManager.CurrentWallet"),
-  (Fn.ExportWallet, "masswallet/wallet.go:WalletManager.ExportWallet"),
-  (Fn.GetAddresses, "masswallet/wallet.go:WalletManager.GetAddresses"),
-  (Fn.GetAllAddressesWithPubkey, "masswallet/wallet.go:WalletManager.GetAllAddressesWithPubkey"),
-  (Fn.GetBindingHistory, "masswallet/wallet.go:WalletManager.GetBindingHistory"),
-  (Fn.GetMnemonic, "masswallet/wallet.go:WalletManager.GetMnemonic"),
-  (Fn.GetStakingHistory, "masswallet/wallet.go:WalletManager.GetStakingHistory"),
-  (Fn.GetUtxo, "masswallet/wallet.go:WalletManager.GetUtxo"),
-  (Fn.ImportWallet, "masswallet/wallet.go:WalletManager.ImportWallet"),
-  (Fn.ImportWalletWithMnemonic, "masswallet/wallet.go:WalletManager.ImportWalletWithMnemonic"),
-  (Fn.IsAddressInCurrent, "masswallet/wallet.go:WalletManager.IsAddressInCurrent"),
-  (Fn.MarkUsedUTXO, "masswallet/wallet.go:WalletManager.MarkUsedUTXO"),
-  (Fn.NewAddress, "masswallet/wallet.go:WalletManager.NewAddress"),
-  (Fn.RemoveWallet, "masswallet/wallet.go:WalletManager.RemoveWallet"),
-  (Fn.SignRawTx, "masswallet/wallet.go:WalletManager.SignRawTx"),
-  (Fn.Start_wm, "masswallet/wallet.go:WalletManager.Start"),
-  (Fn.Stop_wm, "masswallet/wallet.go:WalletManager.Stop"),
-  (Fn.SyncedTo, "masswallet/wallet.go:WalletManager.SyncedTo"),
-  (Fn.UTXOUsed, "masswallet/wallet.go:WalletManager.UTXOUsed"),
-  (Fn.UseWallet, "masswallet/wallet.go:WalletManager.UseWallet"),
-  (Fn.WalletBalance, "masswallet/wallet.go:WalletManager.WalletBalance"),
-  (Fn.Wallets, "masswallet/wallet.go:WalletManager.Wallets"),
-  (Fn.checkInit, "masswallet/wallet.go:checkInit")]
+def prog : Prog := fun f =>
+  match lookupFn bodies f with
+  | some s => some s
+  | none => if f < Fn.count then some .skip else none
+
+/-- (key, skeleton) of every anchored function, in table order -/
+def progs : List (String × Stmt) := Fn.keys.zipIdx.map (fun p => (p.1, (prog p.2).getD .skip))
+
+/-- the table position of every function key -/
+def fnIndex : List (Nat × String) := Fn.keys.zipIdx.map (fun p => (p.2, p.1))
 
 def fnOf (key : String) : Option Nat := (fnIndex.find? (fun p => p.2 == key)).map (·.1)
 
@@ -2919,8 +2659,8 @@ def imports : Nat → List Var := fun _ => paramVars ++ resultVars
     function) and none of their callers relies on a fact they establish (callers only test the returned
     error / flags). A call of a closed function is not re-checked at the call site. -/
 def closedFns : List Nat := [
-  Fn.AmountToString,
-  Fn.AmountToString_wm,
+  Fn.AmountToString_util,
+  Fn.AmountToString_common,
   Fn.StringToAmount,
   Fn.checkLocktime,
   Fn.checkParseAmount,
@@ -2942,19 +2682,19 @@ def closedFns : List Nat := [
   Fn.createTxRawResult,
   Fn.buildDecodeRawTxResponse,
   Fn.CheckReady,
-  Fn.Wallets,
-  Fn.CreateWallet,
+  Fn.Wallets_wallet,
+  Fn.CreateWallet_wallet,
   Fn.WalletBalance,
   Fn.AddressBalance,
-  Fn.GetUtxo,
+  Fn.GetUtxo_wallet,
   Fn.NewAddress,
-  Fn.GetAddresses,
+  Fn.GetAddresses_wallet,
   Fn.AutoCreateRawTransaction,
-  Fn.CreateStakingTransaction,
-  Fn.CreateBindingTransaction,
+  Fn.CreateStakingTransaction_wallet,
+  Fn.CreateBindingTransaction_wallet,
   Fn.SignRawTx,
-  Fn.GetStakingHistory,
-  Fn.GetBindingHistory,
+  Fn.GetStakingHistory_wallet,
+  Fn.GetBindingHistory_wallet,
   Fn.SyncedTo,
   Fn.IsAddressInCurrent,
   Fn.CurrentWallet,
@@ -2985,8 +2725,8 @@ def closedFns : List Nat := [
   Fn.asyncRemove,
   Fn.processConnectedBlock,
   Fn.proccessReceivedTx,
-  Fn.RemoveWallet,
-  Fn.ExportWallet,
+  Fn.RemoveWallet_wallet,
+  Fn.ExportWallet_wallet,
   Fn.GetMnemonic]
 
 def closed : Nat → Bool := fun f => closedFns.contains f
